@@ -20,7 +20,7 @@ if 'reassign' == 'reassign':
     c_.start = -2+2j
     if c_.length() != P.CubicBezier(-2+2j, 30+90j, 70-60j, 100+10j).length():
         REPRODUCED('length() after reassigning start -1+2j -> -2+2j returns the old value')
-deg, variant, quad_available, e1m, e2m, d1m, d2m = 3, 'reassign', False, 0.5, 7719.5, 21238.0, 2437.0
+deg, variant, quad_available, e1m, e2m, d1m, d2m = 3, 'reassign', True, 0.5, 7719.5, 0.0, 0.0
 if not quad_available: P._quad_available = False
 sgn = lambda x: (x > 0) - (x < 0)
 C = P.CubicBezier if deg == 3 else P.QuadraticBezier
